@@ -7,6 +7,10 @@ size of the header list decoded so far (Σ name + value + 32, RFC 7540 §6.5.2).
 the frame is not appended; `handleHeaderFrame` (field loop): `size += …; if max > 0 && size > max →
 GOAWAY(ENHANCE_YOUR_CALM)`. The size only grows, so checking after every field rejects exactly the header
 blocks whose total passes the limit; the model takes the growth of one frame as one event.
+The list size counts decoded fields only. The octets of a field that is not complete at the end of a frame are
+carried over to the next CONTINUATION (`strm.previousHeaderBytes`, here `held`); they are refused with the same
+GOAWAY as soon as there are more than `heldFactor * max` of them (`hdrTail`; F68 repaired): HPACK wire octets
+decode to at least 8/30 of their number, so such a field could never fit the list limit.
 A stream that broke a limit is never handed to a handler (it is reset, or the connection ends).
 Ghost: the trace of rejections and of what each dispatched request carried.
 -/
@@ -17,12 +21,14 @@ structure Strm where
   recv : Nat := 0      -- strm.recvBody
   body : Nat := 0      -- len(ctx.Request.Body())
   hdr : Nat := 0       -- strm.headerListSize
+  held : Nat := 0      -- len(strm.previousHeaderBytes): octets of a field that is not complete yet
   dead : Bool := false -- broke a limit: reset / connection error, never dispatched
 deriving Repr, DecidableEq, Inhabited
 
 inductive Rec where
   | bodyTooLarge (id : Nat)
   | hdrTooLarge (id : Nat)
+  | fieldTooLarge (id : Nat)        -- an unfinished field longer than any field within the list limit
   | handed (id body hdr : Nat)      -- request dispatched with `body` octets of body and a header list of size `hdr`
 deriving Repr, DecidableEq, Inhabited
 
@@ -36,6 +42,7 @@ deriving Repr, Inhabited
 inductive Ev where
   | opened (id : Nat)
   | hdrBytes (id n : Nat)      -- one HEADERS/CONTINUATION frame made the header list grow by `n`
+  | hdrTail (id n : Nat)       -- the field loop of that frame is left with `n` octets of an unfinished field (0: none)
   | data (id n : Nat)          -- a DATA frame with `n` octets of data (padding removed) reaches the body check
   | dispatch (id : Nat)
   | close (id : Nat)
@@ -53,6 +60,12 @@ def del (id : Nat) : List Strm → List Strm
   | [] => []
   | s :: rest => if s.id = id then rest else s :: del id rest
 
+/-- `maxHeldHeaderFactor` -/
+def heldFactor : Nat := 4
+
+/-- `sc.maxHeaderList > 0 && len(b) > maxHeldHeaderFactor*sc.maxHeaderList` -/
+def fieldTooLong (maxHdr : Int) (n : Nat) : Bool := maxHdr > 0 && (n : Int) > (heldFactor : Int) * maxHdr
+
 def step (st : St) : Ev → St
   | .opened id => { st with tbl := st.tbl ++ [{ id := id }] }
   | .hdrBytes id n =>
@@ -63,6 +76,13 @@ def step (st : St) : Ev → St
       if st.maxHdr > 0 ∧ (h : Int) > st.maxHdr then
         { st with tbl := upd (fun x => { x with hdr := x.hdr + n, dead := true }) id st.tbl, trace := st.trace ++ [.hdrTooLarge id] }
       else { st with tbl := upd (fun x => { x with hdr := x.hdr + n }) id st.tbl }
+  | .hdrTail id n =>
+    match get id st.tbl with
+    | none => st
+    | some _ =>
+      if fieldTooLong st.maxHdr n then   -- refused: nothing is stored
+        { st with tbl := upd (fun x => { x with held := 0, dead := true }) id st.tbl, trace := st.trace ++ [.fieldTooLarge id] }
+      else { st with tbl := upd (fun x => { x with held := n }) id st.tbl }
   | .data id n =>
     match get id st.tbl with
     | none => st
